@@ -76,6 +76,8 @@ def lattice_case(draw):
         if len(fil) < 2:
             fil = [lo, lo + 1]
     resp = [draw(st.sampled_from([0., 0.25, 0.5, 1., 0.75, 2.])) for _ in fil]
+    if draw(st.integers(0, 3)) == 0:
+        resp = [float(draw(st.sampled_from([0, 1, 1, 2, 35, 80]))) for _ in fil]
     if draw(st.booleans()):
         resp[0] = resp[-1] = 0.
     if all(r == 0. for r in resp):
@@ -138,7 +140,11 @@ def run_rebin(case, ctx):
         f.central_wavelength = 1.25 * u.micron
         with must_succeed('building a Filter'):
             f.nu = np.array([v / scale for v in fnu]) * un
-            f.response = np.array(resp, dtype=float)
+            if all(float(r) == int(r) for r in resp) and len(fnu) % 2 == 0:
+                f.response = np.array([int(r) for r in resp], dtype=np.int64)   # e.g. a top-hat given as 0/1
+                labels.add('integer_typed_response')
+            else:
+                f.response = np.array(resp, dtype=float)
         fnu_ref = fnu
         if case['unit'] != 'Hz':
             labels.add('unit_' + case['unit'])
@@ -259,7 +265,9 @@ def stored(pkg, fmt):
         q = dict(pkg)
         c = 1e-3 if pkg.get('cube_unit', 'mJy') == 'Jy' else 1.
         q['flux'] = [[[float(np.float32(v * c)) / c for v in row] for row in mod] for mod in pkg['flux']]
-        q['err'] = [[[float(np.float32(v * c)) / c for v in row] for row in mod] for mod in pkg['err']]
+        uu = pkg.get('cube_unc_unit', 'same')
+        cu = c if uu == 'same' else (1e-3 if uu == 'Jy' else 1.)
+        q['err'] = [[[float(np.float32(v * cu)) / cu for v in row] for row in mod] for mod in pkg['err']]
         return q
     return pkg
 
@@ -301,28 +309,30 @@ def run_e2e(case, ctx):
                 R, total = om.rebin_reference(f['nu'], f['response'], nu)
                 if sum(1 for r in R if r > 0) >= 2:
                     nontrivial = True
-                for ap in range(got['flux'].shape[1]):
+                aidx = convpkg.stored_ap_index(pkg)
+                for pos in range(got['flux'].shape[1]):
+                    ap = aidx[pos]     # stored position -> abstract aperture
                     scale = sum(abs(spkg['flux'][m][ap][i]) * float(R[i]) for i in range(len(R)))
                     if f.get('normalize'):
                         scale /= float(total)
                     want = ref_flux[m][ap]
-                    if abs(got['flux'][row][ap] - want) > rtol * scale + 1e-300:
+                    if abs(got['flux'][row][pos] - want) > rtol * scale + 1e-300:
                         fail('convolved/%s.fits: flux of %s aperture %d is %r, sum F*R = %r (%s format, SEDs stored in %s '
-                             'wavelength)' % (f['name'], name, ap, got['flux'][row][ap], want,
+                             'wavelength)' % (f['name'], name, ap, got['flux'][row][pos], want,
                                               'per-file' if fmt == 'v1' else 'cube',
                                               'decreasing' if pkg['storage'] == 'desc' else 'increasing'), 'c06:convolved_flux')
                     wante = ref_err[m][ap]
                     escale = max(wante, 1e-300)
-                    if abs(got['err'][row][ap] - wante) > max(rtol, 1e-9) * escale * 10:
+                    if abs(got['err'][row][pos] - wante) > max(rtol, 1e-9) * escale * 10:
                         fail('convolved/%s.fits: error of %s aperture %d is %r, sqrt(sum (E*R)^2) = %r (%s format)' % (
-                            f['name'], name, ap, got['err'][row][ap], wante, 'per-file' if fmt == 'v1' else 'cube'),
+                            f['name'], name, ap, got['err'][row][pos], wante, 'per-file' if fmt == 'v1' else 'cube'),
                             'c06:convolved_error')
                     if not linear:
                         continue
                     # linearity
                     m2 = n - 1 - m
-                    lin = a * got['flux'][row][ap] + b * res[f['name']]['flux'][got['names'].index(pkg['names'][m2])][ap]
-                    gotc = res_c[f['name']]['flux'][row][ap]
+                    lin = a * got['flux'][row][pos] + b * res[f['name']]['flux'][got['names'].index(pkg['names'][m2])][pos]
+                    gotc = res_c[f['name']]['flux'][row][pos]
                     if abs(gotc - lin) > max(rtol, 1e-9) * (abs(lin) + scale) * 10:
                         fail('convolution is not linear in the SED: conv(aF+bG)=%r, a conv(F)+b conv(G)=%r' % (gotc, lin),
                              'c06:not_linear')
